@@ -256,6 +256,31 @@ def work_pathological(chunk, st):
     st.sample({'peer_text': [chunk[0][0], chunk[0][1] + chunk[0][2] * 3 + '...', chunk[0][3]]}, cap=6)
 
 
+# ---- the connection-rate check is part of a standard audit: whatever its connections meet (banner, notice, silence, close, abort, refusal
+# at once or later, time-outs, and patterns of these), the audit ends through a documented status with its complete report
+def rate_phase_tasks():
+    from props import c19
+    behs = list(c19.RATE_BEHAVIOURS) + [('normal', 'reset'), ('reset', 'refuse-async'), ('normal', 'normal', 'econnreset-async'), ('silent', 'reset'), ('exceeded', 'reset', 'normal')]
+    return [(b, kexes, 1, mode, lat) for b in behs for kexes in (('curve25519-sha256',), ('diffie-hellman-group14-sha256', 'diffie-hellman-group-exchange-sha256'))
+            for mode in ('standard', 'verbose') for lat in (0.01, 0.1)]
+
+
+def work_rate_phase(chunk, st):
+    from props import c19
+    for beh, kexes, nkeys, mode, lat in chunk:
+        res, srv = c19.run_rate(beh, list(kexes), nkeys, mode, lat)
+        root = ('rate-phase', beh, kexes, mode, lat)
+        st.execution(res.world, outcome=('rate-phase', str(beh), res.status, bool(res.hang)), root=root, nontrivial=root)
+        d = {'rate_check_connections_meet': beh if isinstance(beh, str) else list(beh), 'kex': list(kexes), 'mode': mode, 'status': res.status, 'tail': (res.stdout + res.stderr)[-200:]}
+        if res.hang or res.exc or res.status not in (0, 1, 2, 3):
+            st.violation('rate-phase:crash-or-hang:%s' % (beh if isinstance(beh, str) else 'pattern'), dict(d, hang=res.hang, exc=res.exc))
+            continue
+        shown = report.TextReport(res.stdout)
+        if (mode == 'standard' and shown.names('kex') != list(kexes)) or res.status not in (0, 2, 3):
+            st.violation('rate-phase:report-lost:%s' % (beh if isinstance(beh, str) else 'pattern'), d)
+    st.sample({'rate_phase': [str(chunk[0][0]), chunk[0][3]]}, cap=4)
+
+
 # ---- byte-level mutations of the replies that carry the peer's key material: every byte of every host-key probe reply of servers
 # presenting certificates (each CA kind) and plain keys, with single-bit flips: the reply stays a well-framed packet, only its content
 # (type strings, curve names, lengths inside the blob, key bytes) changes
@@ -479,6 +504,7 @@ def run(tier, seed):
     par.pmap(work_banner, banner_content_tasks(), stats=st, chunk=8)
     par.pmap(work_policy_unmeasured, policy_unmeasured_tasks(), stats=st, chunk=6)
     par.pmap(work_pathological, pathological_tasks(tier), stats=st, chunk=30)
+    par.pmap(work_rate_phase, rate_phase_tasks(), stats=st, chunk=4)
     muts = mutation_tasks(tier)
     par.pmap(work_mutations, muts, stats=st, chunk=40)
     from props import delivery as _DL
@@ -527,7 +553,8 @@ def run(tier, seed):
              'thorough adds all pairs with a second message-level fault on a later connection; the message-level plans again through the -T worker path and with -j; degenerate GEX groups; bind failures of a client audit; '
              '%d identification strings (recognised and other software names x unexpected version strings x SSH-2.0/1.99 x both roles x text/JSON); '
              '%d runs of peer-chosen text (a pattern-starting prefix, 40 or 2000 repetitions of a unit, with and without a completing character) as a line in front of the identification string on every connection, as its software field and as its comment, under a CPU watchdog; '
-             'non-trivial = at least one deviation' % (len(banner_content_tasks()), len(pathological_tasks(tier))),
+             '%d audits whose connection-rate check meets every behaviour of the C19 rate family (and patterns with aborts); '
+             'non-trivial = at least one deviation' % (len(banner_content_tasks()), len(pathological_tasks(tier)), len(rate_phase_tasks())),
         assumptions=['environment model: mc/vnet.py, mc/peer.py (validated against real loopback TCP by mc/realnet.py when traces_validated>0)',
                      'random exponent pinned to the low end of its range; ValueError on an empty range is preserved'],
         exhaustive=True, traces_validated=validated, extra={'deviation_bound_completed': bound_done,
